@@ -1,0 +1,140 @@
+//go:build verif
+
+// Machine-checked contracts for the frame relay (properties C08, C09, C10 and
+// the relay part of C02). Comments only.
+
+package tchannel
+
+// ---------------------------------------------------------------------------
+// relay items: the single points where an item becomes finished or tombstoned
+// ---------------------------------------------------------------------------
+
+// Other goroutines (the timeout timers, the other connection's reader) work on
+// the same table: its contents are only known while the lock is held.
+//@ monitor (r *relayItems) RWMutex guards items, tombs
+
+// nends counts End() calls on a relay call, ndec counts decrementPending calls
+// of a relayer (ghost accounting for "exactly once").
+//@ ghostfield nends
+//@ ghostfield ndec
+//@ iface RelayCall.End()
+//@   modifies nends(self)
+//@   ensures nends(self) == old(nends(self)) + 1
+//@ iface RelayCall.Succeeded()
+//@   modifies nothing
+//@ iface RelayCall.SentBytes(n uint16)
+//@   modifies nothing
+//@ iface RelayCall.Failed(reason string)
+//@   modifies nothing
+//@ iface RelayCall.ReceivedBytes(n uint16)
+//@   modifies nothing
+//@ iface RelayCall.CallResponse(f relay.RespFrame)
+//@   modifies nothing
+
+// Delete reports true only if this very call removed a live (non-tombstone)
+// item; afterwards the id is absent.
+//@ func (r *relayItems) Delete(id uint32) (item relayItem, ok bool)
+//@   nosafety
+//@   modifies allbut nends, ndec, errAttempts, own, Frame
+//@   label true-only-for-the-live-to-absent-transition
+//@   ensures ok ==> !item.tomb
+//@   ensures !has(r.items, id)
+//@   property C09 C10
+
+//@ func (r *relayItems) Add(id uint32, item relayItem)
+//@   nosafety
+//@   modifies contents(r.items), r.tombs
+//@   ensures has(r.items, id) && r.items[id].remapID == item.remapID && r.items[id].tomb == item.tomb && r.items[id].destination == item.destination
+//@   property C08 C09
+
+//@ func (r *relayItems) Count() (n int)
+//@   nosafety
+//@   modifies contents(r.items), r.tombs
+//@   property C09
+
+// finishRelayItem: End() is called only by the path that performed the
+// live -> absent transition, at most once, and only for the originating side;
+// the pending count is decremented exactly when the transition was performed.
+//@ func (r *Relayer) finishRelayItem(items *relayItems, id uint32)
+//@   nosafety
+//@   modifies all
+//@   label pending-decremented-at-most-once
+//@   ensures ndec(r) == old(ndec(r)) || ndec(r) == old(ndec(r)) + 1
+//@   label End-only-with-the-transition
+//@   atcall End ok && item.isOriginator
+//@   label decrement-only-with-the-transition
+//@   atcall decrementPending ok
+//@   property C09 C10
+
+//@ func (r *Relayer) decrementPending()
+//@   nosafety
+//@   modifies allbut nends, errAttempts, own, Frame
+//@   defines ndec(r) == old(ndec(r)) + 1
+//@   property C09
+
+// Relay admission counts a pending call exactly when it admits it, under the
+// connection's state read-lock.
+//@ func (r *Relayer) canHandleNewCall() (ok bool, state connectionState)
+//@   nosafety
+//@   modifies all
+//@   ensures ok <==> state == connectionActive
+//@   label pending-incremented-iff-admitted
+//@   atcall Inc canHandle
+//@   property C07 C09
+
+// ---------------------------------------------------------------------------
+// forwarding frames other than call req (C08 P1, C10 S3/S4)
+// ---------------------------------------------------------------------------
+
+//@ func frameTypeFor(f *Frame) (t frameType)
+//@   requires own(f) == 1
+//@   requires f.Header.messageType == messageTypeCallRes || f.Header.messageType == messageTypeCallResContinue || f.Header.messageType == messageTypeError ||
+//@            f.Header.messageType == messageTypePingRes || f.Header.messageType == messageTypeCallReq || f.Header.messageType == messageTypeCallReqContinue ||
+//@            f.Header.messageType == messageTypePingReq || f.Header.messageType == messageTypeCancel
+//@   ensures t == responseFrame <==> (f.Header.messageType == messageTypeCallRes || f.Header.messageType == messageTypeCallResContinue || f.Header.messageType == messageTypeError || f.Header.messageType == messageTypePingRes)
+//@   ensures t == requestFrame || t == responseFrame
+//@   property C03 C08
+
+// A frame is forwarded only for an id present in the table and not tombstoned
+// (late frames after a timeout are swallowed); what is handed to the
+// destination is the same frame with only the id rewritten to the item's
+// remapped id.
+//@ func (r *Relayer) handleNonCallReq(f *Frame) (shouldRelease bool, err error)
+//@   nosafety
+//@   requires FrameFull(f) && f.Header.size >= 16
+//@   requires f.Header.messageType == messageTypeCallRes || f.Header.messageType == messageTypeCallResContinue || f.Header.messageType == messageTypeError ||
+//@            f.Header.messageType == messageTypeCallReqContinue || f.Header.messageType == messageTypeCancel
+//@   modifies all
+//@   label forwarded-only-for-live-known-ids
+//@   atcall Receive ok && !item.tomb && (!finished || stopped)
+//@   label only-the-id-is-rewritten
+//@   atcall Receive arg1 == f && f.Header.ID == item.remapID && f.Header.messageType == old(f.Header.messageType) && f.Header.size == old(f.Header.size)
+//@   label unknown-id-is-not-forwarded
+//@   ensures err == errUnknownID ==> shouldRelease
+//@   label finish-only-after-a-final-frame-was-sent
+//@   atcall finishRelayItem finished && sent
+//@   property C08 C09 C10
+
+// Receive: a frame is queued on this connection only for a live, known id; a
+// final frame is queued only by the path that stopped the timeout.
+//@ func (r *Relayer) Receive(f *Frame, fType frameType) (sent bool, failureReason string)
+//@   nosafety
+//@   requires FrameFull(f)
+//@   modifies all
+//@   label queued-only-for-live-known-ids
+//@   atsend sendCh sent == f && ok && !item.tomb && (!finished || stopped)
+//@   property C08 C09 C10
+
+// ---------------------------------------------------------------------------
+// checksum re-stamp of a continuation frame after arg2 was mutated (C02)
+// ---------------------------------------------------------------------------
+
+// The frame's checksum field receives the running checksum after folding in
+// exactly the frame's (single) chunk, whatever its length (including 0).
+//@ func (r *Relayer) updateMutatedCallReqContinueChecksum(f *Frame, cs Checksum)
+//@   requires FrameFull(f) && f.Header.size >= 16 && cs != nil
+//@   modifies cs(cs), elems(f.Payload)
+//@   label continuation-frame-is-always-restamped
+//@   ensures ChecksumType(tcode(cs)).ChecksumSize() == 4 && f.Header.size - 16 >= 8 && f.Header.size - 16 >= 8 + be16(old(f.Payload), 6) ==>
+//@             cs(cs) == csupd(old(cs(cs)), old(f.Payload[8:8+be16(f.Payload, 6)])) && be32(f.Payload, 2) == cssum(cs(cs))
+//@   property C02 C08
